@@ -292,6 +292,18 @@ class Quantity:
         self.unit = unit
 
 
+class NumStr:
+    """abstract input text: a plain decimal numeral (no unit, no spaces) denoting the finite real/integer `term`.
+    ' ' in s is False, float(s) is term, int(float(s)) truncates; everything else about the text is opaque."""
+    __slots__ = ("term",)
+
+    def __init__(self, term):
+        self.term = term
+
+    def __repr__(self):
+        return f"NumStr({self.term})"
+
+
 class Opaque:
     """An opaque value produced by an abstracted library call (e.g. file handle)."""
     __slots__ = ("tag",)
